@@ -111,6 +111,12 @@ pub struct LifeCase {
     /// clone. The first definition must still be accepted afterwards and behave as usual.
     #[serde(default)]
     pub premature: u8,
+    /// recursive() forms only, k > 0: the LAST operation of the history parses through a clone of the
+    /// handle that `recursive()` handed to its closure (kept by the closure), and the k-th user-closure
+    /// call of that parse drops every owning handle there is. "May be dropped freely": the parse in
+    /// flight must finish like the expansion, and the definition must stay alive until it has.
+    #[serde(default)]
+    pub drop_owners_at: u64,
 }
 
 // ---------------------------------------------------------------------------------------------
@@ -145,9 +151,42 @@ thread_local! {
     /// expansion calls none of them, so neither may the recursive parser.
     static CALLS: std::cell::Cell<u64> = const { std::cell::Cell::new(0) };
 }
+thread_local! {
+    /// (fire at this many closure calls, what to run then): used to drop the owning handles mid-parse
+    static AT_CALL: std::cell::RefCell<Option<(u64, Box<dyn FnOnce()>)>> = const { std::cell::RefCell::new(None) };
+    /// a parse through the closure's own handle is in flight
+    static IN_FLIGHT: std::cell::Cell<bool> = const { std::cell::Cell::new(false) };
+    /// the definition (a value captured by its outermost closure) was dropped while IN_FLIGHT ...
+    static DIED_IN_FLIGHT: std::cell::Cell<bool> = const { std::cell::Cell::new(false) };
+    /// ... and one of its closures ran AFTER that (the definition's code was still in use). Being
+    /// destroyed between the return of the outermost recursive call and the return of parse() is fine:
+    /// that is when the last in-flight reference goes away.
+    static USED_AFTER_DEATH: std::cell::Cell<bool> = const { std::cell::Cell::new(false) };
+}
+/// Captured by the outermost closure of a definition: tells when the definition is destroyed.
+struct Tripwire;
+impl Drop for Tripwire {
+    fn drop(&mut self) {
+        if IN_FLIGHT.with(|f| f.get()) {
+            DIED_IN_FLIGHT.with(|d| d.set(true));
+        }
+    }
+}
 #[inline]
 fn cnt<T>(x: T) -> T {
-    CALLS.with(|c| c.set(c.get() + 1));
+    let n = CALLS.with(|c| {
+        c.set(c.get() + 1);
+        c.get()
+    });
+    if DIED_IN_FLIGHT.with(|d| d.get()) && IN_FLIGHT.with(|f| f.get()) {
+        USED_AFTER_DEATH.with(|u| u.set(true));
+    }
+    let due = AT_CALL.with(|a| matches!(&*a.borrow(), Some((k, _)) if *k == n));
+    if due {
+        if let Some((_, f)) = AT_CALL.with(|a| a.borrow_mut().take()) {
+            f();
+        }
+    }
     x
 }
 thread_local! {
@@ -797,15 +836,26 @@ pub struct History {
     /// panic message of the FIRST define of a declared parser, if it panicked
     pub first_define_refused: Option<String>,
     pub results: Vec<OpResult>,
+    pub inner_parse: Option<InnerParse>,
+}
+
+/// Result of the final parse through the closure's own handle (see LifeCase::drop_owners_at).
+pub struct InnerParse {
+    pub outcome: Outcome,
+    pub calls: u64,
+    pub owners_dropped_mid_parse: bool,
+    pub definition_died_in_flight: bool,
 }
 
 fn run_history<'a>(c: &LifeCase, input: &'a [u8]) -> History {
     set_bp(c.shape_seed);
+    let kept_inner: std::rc::Rc<std::cell::RefCell<Option<RD<'a>>>> = Default::default();
     let mut pool: Vec<H<'a>> = Vec::new();
     // handles that are not entry points but stay alive until the history is over
     let mut keep: Vec<H<'a>> = Vec::new();
     let mut premature = None;
     let mut refused = None;
+    let mut inner_parse = None;
     let early = |h: &RI<'a>| -> Option<Outcome> {
         match c.premature {
             0 => None,
@@ -916,7 +966,21 @@ fn run_history<'a>(c: &LifeCase, input: &'a [u8]) -> History {
         }
         (t, Form::Direct) => {
             let pads = c.pads.clone();
-            let r: RD<'a> = recursive(move |me| body(t, &pads, me.boxed(), None, false));
+            let stash = kept_inner.clone();
+            let keep = c.drop_owners_at > 0;
+            let r: RD<'a> = recursive(move |me| {
+                if keep {
+                    // the closure keeps a clone of the handle it was given (a non-owning one)
+                    *stash.borrow_mut() = Some(me.clone());
+                }
+                let tw = Tripwire;
+                body(t, &pads, me.boxed(), None, false)
+                    .map(move |x| {
+                        let _ = &tw;
+                        x
+                    })
+                    .boxed()
+            });
             pool.push(H::Dir(r));
         }
         (t, Form::Indirect) => {
@@ -983,8 +1047,27 @@ fn run_history<'a>(c: &LifeCase, input: &'a [u8]) -> History {
         };
         out.push(res);
     }
+    if c.drop_owners_at > 0 {
+        if let Some(inner) = kept_inner.borrow_mut().take() {
+            // every owning handle moves into the hook; the parse runs through the closure's own handle
+            let owners: Vec<H<'a>> = std::mem::take(&mut pool);
+            let hook_fn: Box<dyn FnOnce() + 'a> = Box::new(move || drop(owners));
+            // SAFETY: the hook is run or cleared before this function returns
+            let hook_fn: Box<dyn FnOnce() + 'static> = unsafe { std::mem::transmute(hook_fn) };
+            AT_CALL.with(|a| *a.borrow_mut() = Some((c.drop_owners_at, hook_fn)));
+            DIED_IN_FLIGHT.with(|d| d.set(false));
+            USED_AFTER_DEATH.with(|d| d.set(false));
+            IN_FLIGHT.with(|f| f.set(true));
+            let (o, k) = H::Dir(inner.clone()).run(input, false);
+            IN_FLIGHT.with(|f| f.set(false));
+            // not reached by the parse: the owners are dropped now, after it
+            let fired = AT_CALL.with(|a| a.borrow_mut().take()).is_none();
+            inner_parse = Some(InnerParse { outcome: o, calls: k, owners_dropped_mid_parse: fired, definition_died_in_flight: USED_AFTER_DEATH.with(|d| d.get()) });
+            drop(inner);
+        }
+    }
     drop(keep);
-    History { premature, first_define_refused: refused, results: out }
+    History { premature, first_define_refused: refused, results: out, inner_parse }
 }
 
 /// Reference: the unrolling, on the calling (big-stack) thread.
@@ -1027,6 +1110,8 @@ pub struct CaseRun {
     pub used_generator_oracle: bool,
     pub generator_vs_unrolling_disagree: bool,
     pub premature: Option<Outcome>,
+    /// Some(true): the owners were dropped in the middle of the final parse; Some(false): that parse made fewer closure calls
+    pub inner_fired: Option<bool>,
 }
 
 pub const DEFINE_ONCE_MSG: &str = "recursive parsers can only be defined once";
@@ -1052,13 +1137,13 @@ pub fn exec_case(c: &LifeCase) -> CaseRun {
     let results = match handle.join() {
         Ok(Ok(v)) => v,
         Ok(Err(msg)) => {
-            return CaseRun { results: vec![], failure: Some(("history-panicked".into(), msg)), digest: 0, used_unrolling: false, used_generator_oracle: false, generator_vs_unrolling_disagree: false, premature: None }
+            return CaseRun { results: vec![], failure: Some(("history-panicked".into(), msg)), digest: 0, used_unrolling: false, used_generator_oracle: false, generator_vs_unrolling_disagree: false, premature: None, inner_fired: None }
         }
         Err(_) => {
-            return CaseRun { results: vec![], failure: Some(("history-panicked".into(), "sut thread died".into())), digest: 0, used_unrolling: false, used_generator_oracle: false, generator_vs_unrolling_disagree: false, premature: None }
+            return CaseRun { results: vec![], failure: Some(("history-panicked".into(), "sut thread died".into())), digest: 0, used_unrolling: false, used_generator_oracle: false, generator_vs_unrolling_disagree: false, premature: None, inner_fired: None }
         }
     };
-    let History { premature, first_define_refused, results } = results;
+    let History { premature, first_define_refused, results, inner_parse } = results;
     let mut digest = fold_bytes(7, &input[..input.len().min(4096)]);
     let mut failure = None;
     if let Some(msg) = first_define_refused {
@@ -1141,7 +1226,26 @@ pub fn exec_case(c: &LifeCase) -> CaseRun {
             }
         }
     }
-    CaseRun { results, failure, digest, used_unrolling: use_unroll, used_generator_oracle: used_gen, generator_vs_unrolling_disagree: disagree, premature }
+    let mut inner_fired = None;
+    if let Some(ip) = &inner_parse {
+        digest = fold(digest, ip.outcome.digest());
+        inner_fired = Some(ip.owners_dropped_mid_parse);
+        if failure.is_none() {
+            if ip.definition_died_in_flight {
+                failure = Some(("definition-destroyed-during-parse".into(), format!("every owning handle was dropped by the {}-th user closure of a parse running through the handle recursive() gave its closure; the definition was destroyed and its closures kept running afterwards (the parse returned {})", c.drop_owners_at, ip.outcome.brief())));
+            } else if use_unroll {
+                let (r, rcalls) = ref_parse.get_or_insert_with(|| run_unrolled(c, &input, false)).clone();
+                if r != ip.outcome {
+                    failure = Some(("differs-from-unrolling".into(), format!("parse through the closure's own handle while the owners are dropped mid-parse: unrolled={} recursive={}", r.brief(), ip.outcome.brief())));
+                } else if rcalls != ip.calls {
+                    failure = Some(("differs-from-unrolling(user-closure calls)".into(), format!("parse through the closure's own handle while the owners are dropped mid-parse: closure-call / fold digests differ ({:x} vs {:x})", rcalls, ip.calls)));
+                }
+            } else if ip.outcome.is_panic() {
+                failure = Some(("deep-panic".into(), format!("parse through the closure's own handle: {}", ip.outcome.brief())));
+            }
+        }
+    }
+    CaseRun { results, failure, digest, used_unrolling: use_unroll, used_generator_oracle: used_gen, generator_vs_unrolling_disagree: disagree, premature, inner_fired }
 }
 
 // Calibration of the generator expectation: per template, shallow well-formed and malformed inputs
@@ -1158,7 +1262,7 @@ fn calibrated(t: Tmpl) -> bool {
                 let mut ok = true;
                 for depth in 0..7usize {
                     for (vi, variant) in [Variant::WellFormed, Variant::Truncated(depth), Variant::WrongAt(depth + 1), Variant::Surplus].into_iter().enumerate() {
-                        let c = LifeCase { tmpl: *t, form: Form::Direct, pads: vec![], stack_kib: 1024, depth, shape_seed: 11 + depth as u64 + vi as u64, variant, ops: vec![], unroll_max: 64, premature: 0 };
+                        let c = LifeCase { tmpl: *t, form: Form::Direct, pads: vec![], stack_kib: 1024, depth, shape_seed: 11 + depth as u64 + vi as u64, variant, ops: vec![], unroll_max: 64, premature: 0, drop_owners_at: 0 };
                         if !rejection_is_certain(&c) {
                             continue;
                         }
@@ -1269,7 +1373,10 @@ pub fn gen_case(seed: u64, idx: u64, tier: &str) -> LifeCase {
     let unroll_max = if thorough { 20_000 } else { 2_000 };
     // drawn last so that every other field of a case stays what it was before this field existed
     let premature = if (form == Form::Indirect || tmpl == Tmpl::Mutual || tmpl == Tmpl::Triple) && rng.chance(1, 5) { 1 + rng.below(2) as u8 } else { 0 };
-    LifeCase { tmpl, form, pads, stack_kib, depth, shape_seed, variant, ops, unroll_max, premature }
+    // (drawn after everything else, like `premature`)
+    let plain_direct = form == Form::Direct && matches!(tmpl, Tmpl::Paren | Tmpl::List | Tmpl::Chain | Tmpl::PrattGroup | Tmpl::Brackets);
+    let drop_owners_at = if plain_direct && rng.chance(1, 8) { 1 + rng.below((depth as u64).clamp(1, 40)) } else { 0 };
+    LifeCase { tmpl, form, pads, stack_kib, depth, shape_seed, variant, ops, unroll_max, premature, drop_owners_at }
 }
 
 pub struct LifeSim;
@@ -1327,6 +1434,11 @@ impl Engine for LifeSim {
         acc.add("fired.clone", c.ops.iter().filter(|o| matches!(o, Op::Clone(_))).count() as u64);
         acc.add("fired.boxed", c.ops.iter().filter(|o| matches!(o, Op::Boxed(_))).count() as u64);
         acc.add("fired.parse_started_on_an_application_allocated_stack_segment", c.ops.iter().filter(|o| matches!(o, Op::ParseOnSegment(..))).count() as u64);
+        match run.inner_fired {
+            Some(true) => acc.inc("fired.owners_dropped_by_a_callback_in_the_middle_of_a_parse_through_the_closure's_handle"),
+            Some(false) => acc.inc("configured.owners_drop_mid_parse_not_reached(parse made fewer closure calls)"),
+            None => {}
+        }
         if let Some(o) = &run.premature {
             acc.inc("fired.premature_parse_before_first_define");
             if o.is_panic() {
@@ -1407,6 +1519,11 @@ pub fn shrink_candidates(c: &LifeCase) -> Vec<LifeCase> {
     if c.premature != 0 {
         let mut x = c.clone();
         x.premature = 0;
+        v.push(x);
+    }
+    if c.drop_owners_at > 1 {
+        let mut x = c.clone();
+        x.drop_owners_at = 1;
         v.push(x);
     }
     if let Some(pos) = STACKS_KIB.iter().position(|s| *s == c.stack_kib) {
